@@ -17,8 +17,4 @@ if (cd harness && go run ./cmd/rewrite /repo "$(pwd)/shim" "$(pwd)/../build/over
 else
   echo "rewriter refused: falling back to the plain binary"
 fi
-if [ "$ID" = "C13" ]; then
-  rm -f build/vcheck-race
-  build vcheck-race "verif" -race || echo "race variant does not build"
-fi
 true
